@@ -144,7 +144,10 @@ class Driver:
             r = subprocess.run([self.exe], input=data, capture_output=True, text=True, timeout=timeout)
         except subprocess.TimeoutExpired:
             raise MachineryError(f"model driver timed out on {len(cases)} cases")
-        lines = r.stdout.splitlines()
+        # split on LF only: str.splitlines() would also split on U+0085, U+2028 … inside JSON strings
+        lines = r.stdout.split("\n")
+        if lines and lines[-1] == "":
+            lines.pop()
         if r.returncode != 0 or len(lines) != len(cases):
             raise MachineryError(f"model driver failed rc={r.returncode} lines={len(lines)}/{len(cases)} {r.stderr[-500:]}")
         return [json.loads(l) for l in lines]
